@@ -79,7 +79,8 @@ CLAIMS = {
  "C12": ("proof: thread-local list = thread-local registrations in order (all programs); in EVERY trace of the executor model the "
          "thread-local windows come last, after every ordinary system has released, one at a time in registration order, on the "
          "calling thread; sendable <=> no thread-local systems; tie: S1 (tl count/order, try_into_sendable outcome and preserved plan), "
-         "S2 (recorded traces with thread identity, hold mode)",
+         "S2 (recorded traces with thread identity, hold mode), S7 (async: thread-local systems only inside wait, on the calling thread, "
+         "after all others, every wait runs all of them in registration order)",
          "KNOWN FINDING KF1 (listed in known_findings.json): thread-local systems of a builder passed to add_batch run on the pool "
          "worker executing the batch; rayon modelled, not verified",
          "trace-set theorems + differential correspondence", "5 C12"),
@@ -98,6 +99,19 @@ CLAIMS = {
          "recorded faulty trace must be accepted by the extracted faulty acceptor, payload/probe/next-dispatch oracles on the real run",
          "unwinding and rayon's panic propagation are modelled (superset: siblings complete, stop at their own panic or never start)",
          "trace-set theorems + differential correspondence", "5 C14"),
+ "C15": ("proof over the labelled transition system of the hand-off (Async.v), for EVERY interleaving of caller operations and job "
+         "steps and every operation sequence: wait / wait_without_tl / world / world_mut / setup return only when no job is running "
+         "or pending; running() = false only when finished, true while a job runs; a dispatch starts only after the previous job is "
+         "complete; the finished work is a sequence of whole dispatch traces (every ordinary system once, C04) and thread-local "
+         "passes contributed only by wait. tie: S7 — random operation sequences on random plans with the REAL AsyncDispatcher, one "
+         "background system held inside run while the caller polls running(), or jitter; pools 1,2,4,16; the recorded history "
+         "(system events + begin/end markers of every call) must be accepted by the extracted acceptor of the state machine; "
+         "oracles on the raw log (no open window when an accessor returns, running() never false while a system is inside run, "
+         "thread-local systems only inside wait on the calling thread after all others, every wait runs all of them in order, "
+         "run counters = number of dispatches)",
+         "mpsc channel and ThreadPool::spawn are modelled (send/receive as atomic steps); the acceptor's relation to the LTS is "
+         "by construction, not by a separate theorem; events inside batches are checked by S2",
+         "LTS invariants by induction over runs + differential correspondence", "5 C15"),
  "C16": ("proof by induction over trees of any depth and fan-out: every trace is a permutation of the sequential trace (each leaf "
          "exactly once); for every seq node at any depth, every leaf of an earlier child has released before any leaf of a later "
          "child fetches, in EVERY trace; par children may overlap; node reads/writes = concatenation over its leaves; the debug check "
@@ -132,7 +146,7 @@ CLAIMS = {
          "stage/group and are outside the text",
          "invariant induction + differential correspondence", "5 C20"),
 }
-REGISTERED = ["C01", "C02", "C03", "C04", "C05", "C06", "C07", "C08", "C09", "C10", "C12", "C13", "C14", "C16", "C17", "C18", "C20"]
+REGISTERED = ["C01", "C02", "C03", "C04", "C05", "C06", "C07", "C08", "C09", "C10", "C12", "C13", "C14", "C15", "C16", "C17", "C18", "C20"]
 
 def main():
     props = [json.loads(l) for l in open(os.path.join(VERIF, "properties.jsonl"))]
